@@ -58,7 +58,7 @@ func init() {
 		Run: runR044,
 	})
 	register(&Rule{
-		ID: "R04.3", Props: []string{"C04"}, Engine: "order (path automaton) + flow",
+		ID: "R04.3", Props: []string{"C04", "C01"}, Engine: "order (path automaton) + flow",
 		Text: "use-count pairing: blockDeviceBackedBlock.Put takes one reference and the writer it returns drops exactly one on every path (also when ingesting or flushing fails); blockDeviceBackedBlock.Get takes one reference and hands the block to a blockDeviceBackedBlockReader, whose Close drops exactly one and clears its field",
 		Floor: 4, MustExist: true,
 		Run: runR043,
